@@ -3,7 +3,30 @@
 
 use crate::fw::Aligned;
 
-#[derive(Clone, Copy, PartialEq, Eq, Hash, Debug)]
+/// hash of a string for the distinct-outcome statistic: complete for short strings, length + both ends for long ones
+/// (equality checks always compare the complete strings)
+pub fn hash_str<H: std::hash::Hasher>(s: &str, h: &mut H) {
+    use std::hash::Hash;
+    if s.len() <= 96 {
+        s.hash(h);
+    } else {
+        s.len().hash(h);
+        s.as_bytes()[..32].hash(h);
+        s.as_bytes()[s.len() - 32..].hash(h);
+    }
+}
+
+impl std::hash::Hash for Fr<'_> {
+    fn hash<H: std::hash::Hasher>(&self, h: &mut H) {
+        hash_str(self.class, h);
+        hash_str(self.method, h);
+        self.line.hash(h);
+        hash_str(self.file.unwrap_or("\u{0}none"), h);
+        hash_str(self.params.unwrap_or("\u{0}none"), h);
+    }
+}
+
+#[derive(Clone, Copy, PartialEq, Eq, Debug)]
 pub struct Fr<'a> {
     pub class: &'a str,
     pub method: &'a str,
